@@ -246,6 +246,8 @@ def shapes(nargs_max, rng, limit):
 
 
 def run(rep, tier):
+    from .. import scale
+    scale.run(rep, PROP, tier)          # size ladders (seedverif/scale.py): the entries that concern this property
     rng = core.rng_for(PROP)
     descs = []
     shp = shapes(5, rng, 60 if tier == "quick" else None)
